@@ -420,8 +420,7 @@ class Driver:
             if o.metric_name != post["metric"]["name"]:
                 bad.append((None, f"metric_name is {o.metric_name}, expected {post['metric']['name']}"))
             if do_probe and not bad:
-                fid = "RejectedMetricCommitted" if out == "rejected" else None
-                bad += [(fid, f"after {out} set_ext_int_handling_metric({a['name']}, {sorted(d)}): {b}") for b in self.probe(e["probe"])]
+                bad += [(None, f"after {out} set_ext_int_handling_metric({a['name']}, {sorted(d)}): {b}") for b in self.probe(e["probe"])]
             return bad
         if op == "EditDict":
             n_other = post["metric"]["ns"] % 2 + 1
